@@ -1,7 +1,7 @@
 """Source of MANIFEST.json (bin/mkmanifest renders it). One entry per claimed property."""
 
 HOOK_COMMITS = ["f529e9d", "ae52c2c"]
-FIX_COMMITS = ["c71e8ce", "b266a7b", "3c8b2f5", "8a433c1", "8c9bd77", "b6b128e", "d4a32a0", "05b2e41", "7858fec", "23c0ca4", "3feca11", "c1f5fc8"]
+FIX_COMMITS = ["c71e8ce", "b266a7b", "3c8b2f5", "8a433c1", "8c9bd77", "b6b128e", "d4a32a0", "05b2e41", "7858fec", "23c0ca4", "3feca11", "c1f5fc8", "212cd41", "2e485b4"]
 
 CHECKS = {
     "C19": dict(
@@ -139,6 +139,27 @@ CHECKS = {
              "bounds, random days) in holiday / sun-event contexts; comments equal up to joining.",
         note="Trusted: the library's own evaluation as the oracle (differential); equivalence is decided on probe days only.",
         design_ref="8/C06",
+    ),
+    "C07": dict(
+        category="model_checking",
+        technique="TLA+ spec Normalize.tla (paving machine M4: cut_at / set / is_val / pop_filter / days_covered / emission); TLC checks meaning preservation on every rule sequence up to the bound, the model's normal form of every sequence is compared with the real normaliser's output, recorded normalisations are validated by Trace_Normalize",
+        text="MC_Normalize: all sequences of <=2 (quick, 31879) / <=3 (thorough) canonical rules (2 operators x 3 kinds x comments x time x day "
+             "ranges incl. split ones) over a 2-D domain: the normal form the paving model computes paints every cell like the original; with "
+             "the pinned tree's is_val TLC finds the counterexample. The real normaliser's printed result equals the model's on every "
+             "enumerated sequence (string equality, 31878/31878). Trace_Normalize: for corpus / model / random expressions the schedules of e "
+             "and normalize(e) are equal on every day of whole sample years between the year cut points of both (run-length encoded) and on "
+             "probe days, under holiday / sun-event contexts.",
+        note="Trusted: TLC; the library's own evaluation as oracle (differential); sample years instead of all years; 2-D model of a 5-D paving.",
+        design_ref="8/C07",
+    ),
+    "C13": dict(
+        category="model_checking",
+        technique="Normalize.tla: idempotence and well-formedness invariants model checked on every rule sequence up to the bound; recorded normalize / normalize-again / clone / thread / reparse results validated by Trace_Normalize",
+        text="MC_Normalize: Normalize(Normalize(e)) = Normalize(e) and emitted rules are well formed for every sequence of the bounded domain; "
+             "emission is a function of the paving (determinism by construction of the model). Binding: n2 = n1 as ASTs, equal results from a "
+             "clone, another thread and OpeningHours::normalize, and the printed normal form parses, for corpus / model / random expressions.",
+        note="Trusted: as C07; equivalence of the reparsed normal form is decided by C06.",
+        design_ref="8/C13",
     ),
 }
 
